@@ -27,6 +27,7 @@ struct SchedScenario {
   std::vector<ClientProg> clients;
   int startRead = 3;   // clients are started at this read call of the bus thread (signal acquired)
   int p = 2;           // preemption bound
+  int timeouts = 0;    // timed waits that may expire although other threads can run
   bool allOk = false;  // conformant bus (or one lost arbitration with a retry left): every waited operation must succeed
 };
 
@@ -150,6 +151,14 @@ static std::vector<SchedScenario> scenarios(bool thorough) {
         if (thorough && ss.clients.size() > 2) ss.p = 3;
         ss.name = std::string(enh ? "enh" : "plain") + "/prog" + std::to_string(pi) + "/bus" + std::to_string(beh) + "/p" + std::to_string(ss.p);
         v.push_back(ss);
+        // the one-second liveness check of a waiter fires while the bus thread is still busy with its request
+        if ((beh == 0 || beh == 2) && (pi == 0 || pi == 2 || thorough)) {
+          SchedScenario s3 = ss;
+          s3.timeouts = 1;
+          s3.p = thorough ? 3 : 2;
+          s3.name += "/timeout1";
+          v.push_back(s3);
+        }
         // submission while there is no signal: before the first symbol was ever received, and after the signal was lost
         bool hasWaitOp = false;
         for (auto& c : ss.clients) for (auto& o : c.ops) if (o.kind == OP_ADD_WAIT_DELETE) hasWaitOp = true;
@@ -198,6 +207,7 @@ static void execute(size_t idx, const SchedScenario& ss, vp::Explorer& e, bool l
   vps::Sched sched;
   sched.ex = &e;
   sched.logging = logging;
+  sched.timeoutChoices = ss.timeouts > 0;
   vps::g_sched = &sched;
   World w(ss.bus, e);
   w.logging = logging;
@@ -241,7 +251,7 @@ static void execute(size_t idx, const SchedScenario& ss, vp::Explorer& e, bool l
       std::string who = "client" + std::to_string(ci) + "/op" + std::to_string(oi) + " (request " + ref::hex(ss.bus.reqs[op.req].master) + ")";
       if (!r.returned) { vd.add("C04/operation-not-returned", who + " did not return"); continue; }
       if (r.result == 1 || r.result == 2 || r.result == 99) vd.add("C04/indefinite-result/threads", who + " returned the non-result " + std::to_string(r.result));
-      if (ss.allOk && op.kind != OP_FIRE_AND_FORGET && r.result != RESULT_OK)
+      if (ss.allOk && sched.timeoutsFired == 0 && op.kind != OP_FIRE_AND_FORGET && r.result != RESULT_OK)
         vd.add("C04/failed-without-cause/threads", who + " returned error " + std::to_string(r.result) + " although every participant answered conformantly");
       if (op.kind == OP_SEND_AND_WAIT && r.result == RESULT_OK) {
         // the response of the own request: reference = what the responder script of that request sends
@@ -306,7 +316,7 @@ int main(int argc, char** argv) {
   if (A.replay) {
     if (rsc < 0 || rsc >= (long)scs.size()) { printf("bad scenario\n"); return 2; }
     vp::Explorer ex;
-    ex.budget[vps::K_PREEMPT] = 100;
+    ex.budget[vps::K_PREEMPT] = 100; ex.budget[vps::K_TIMEOUT] = 100;
     ex.runOnce(rchoices, [&](vp::Explorer& e) { execute(rsc, scs[rsc], e, true); });
     return 0;
   }
@@ -320,6 +330,7 @@ int main(int argc, char** argv) {
     size_t i = units[u].first;
     vp::Explorer ex;
     ex.budget[vps::K_PREEMPT] = scs[i].p + (int)A.getInt("dp", 0);
+    ex.budget[vps::K_TIMEOUT] = scs[i].timeouts;
     ex.explore([&](vp::Explorer& e) {
       execute(i, scs[i], e, false);
       if ((e.executions & 0xff) == 0 && R.expired()) e.stopAll = true;
